@@ -149,7 +149,8 @@ def check_aggregate(case):
         Q = (np.round(Q) if qd.startswith("int") else Q).astype(qd)
     facts["qdtype"] = qd
     Q0 = Q.copy()
-    pa = model.predict_all(Q)
+    pa_returned = model.predict_all(Q)
+    pa = np.array(pa_returned, copy=True)          # what was returned, kept aside: the array handed to the caller must stay what it was
     require(pa.shape == (len(Q), ne), "predict_all:shape", "%r" % (pa.shape,), facts)
     for i, e in enumerate(model.estimators_):
         own = np.asarray(e.predict(Q))
@@ -166,6 +167,10 @@ def check_aggregate(case):
     require(np.array_equal(Q, Q0), "input-modified", "", facts)
     # predict_all again unchanged (predict_sorted must not sort the models in place)
     require(np.array_equal(model.predict_all(Q), pa), "predict_all:changed-after-sorted", "", facts)
+    require(np.array_equal(pa_returned, pa), "predict_all:returned-array-changed-later", "the array predict_all returned was modified by later calls (predict_sorted sorts in place?)", facts)
+    # the caller may do what it wants with what it was given
+    pa_returned[...] = -12345.0
+    require(np.array_equal(model.predict_all(Q), pa), "predict_all:follows-the-callers-edits", "", facts)
     # the hyper-parameter is changed WITHOUT refitting (what a grid search does between fits): the fitted models are the same,
     # so predict is still their mean
     model.set_params(n_estimators=case.get("other_n_estimators", ne + 3))
